@@ -352,6 +352,10 @@ def run_async(case, reply=None):
     p = dict(case.get("params", {}))
     S, states = [], []
     for i, src in enumerate(case["srcs"]):
+        if src.get("same_as") is not None:      # the very same iterator object passed at several positions
+            S.append(S[src["same_as"]])
+            states.append(states[src["same_as"]])
+            continue
         obj, st = make_source(src["kind"], mkscript(src["script"]), i, log, src.get("susp", 0), src.get("close_susp", 0))
         S.append(obj)
         states.append(st)
@@ -453,6 +457,9 @@ def run_sync(case):
     p = dict(case.get("params", {}))
     S = []
     for i, src in enumerate(case["srcs"]):
+        if src.get("same_as") is not None:
+            S.append(S[src["same_as"]])
+            continue
         st = SrcState(i, "iter")
         S.append(SyncIterSource(mkscript(src["script"]), st, log))
     F = [make_fn(spec, i, log, "def", StopIteration) for i, spec in enumerate(case.get("fns", []))]
@@ -489,6 +496,8 @@ def run_sync_safe(case):
 
 
 def model_request(case):
+    if any(s.get("same_as") is not None for s in case["srcs"]):
+        return None      # one iterator at several positions: the models (and their theorems) assume distinct sources
     fns = [{k: v for k, v in spec.items() if k != "flavour"} for spec in case.get("fns", [])]
     return {"m": "tool", "tool": case["tool"], "params": case.get("params", {}),
             "srcs": [{"kind": s["kind"], "script": s["script"]} for s in case["srcs"]],
